@@ -173,7 +173,17 @@ def run_one(gw, base, rng):
                 perturb(d, rng)
         dests.append(d)
         r.add_traced_target(gw, d, delete=rng.random() < 0.5)
-    err = r.traced_send()
+    # send() must end by itself (return or raise): a send that blocks (e.g. a failed target that is never noticed) is reported as "Hang"
+    import threading
+
+    box = {}
+    th = threading.Thread(target=lambda: box.update(err=r.traced_send()), daemon=True)
+    th.start()
+    th.join(60)
+    if th.is_alive():
+        r.events.append(ev("raise", 0, "Hang"))
+        return {"nt": nt, "mayfail": [], "trace": r.events, "err": "Hang", "covered": True}
+    err = box.get("err", "")
     covered = True
     if not err:
         want = _tree(src)
